@@ -98,7 +98,7 @@ package chain
 //@   inline
 //@   nopanic
 //@   requires memInv(b.db)
-//@   assigns map:map[string]map[string][]byte, map:map[string][]byte, map:map[string]struct{}
+//@   assigns map:map[string]map[string][]byte, map:map[string][]byte, map:map[string]struct{}, map:map[string]map[string]struct{}
 //@   ensures [inv] memInv(b.db)
 //@   ensures [err] (result == nil) <==> old(b.db.puts[b.name] != nil || b.db.buckets[b.name] != nil)
 //@   ensures [point] result == nil ==> forall k string :: memView(b.db, b.name, k) == ite(k == old(string(key)), value, old(memView(b.db, b.name, k)))
@@ -107,7 +107,7 @@ package chain
 //@   inline
 //@   nopanic
 //@   requires memInv(b.db)
-//@   assigns map:map[string]map[string][]byte, map:map[string][]byte, map:map[string]struct{}
+//@   assigns map:map[string]map[string][]byte, map:map[string][]byte, map:map[string]struct{}, map:map[string]map[string]struct{}
 //@   ensures [inv] memInv(b.db)
 //@   ensures [err] (result == nil) <==> old(b.db.dels[b.name] != nil || b.db.buckets[b.name] != nil)
 //@   ensures [point] result == nil ==> forall k string :: memView(b.db, b.name, k) == ite(k == old(string(key)), nil, old(memView(b.db, b.name, k)))
